@@ -1,5 +1,17 @@
 """C08 bounded stand-in: real-time TDVP (purely imaginary dt) conserves norm and energy, returns the input norm,
-evolves the normalized input, never modifies H; single-site TDVP never increases a bond dimension."""
+evolves the normalized input, never modifies H; single-site TDVP never increases a bond dimension.
+
+Kinds 'single' / 'two': built-in models and random Hermitian MPOs whose spectral norm is rescaled to the range of the
+built-in models (1..8), so |dt|*||H|| <= 8 (built-in: <= ~25).  Zero failures expected on the unchanged tree.
+
+Kinds 'single_stiff' / 'two_stiff' (signature qualifier ':stiff'): random Hermitian MPOs with ||H|| = 150 or 400.
+On the unchanged tree a fraction of these cases violates the norm / energy clauses by 1e-7 .. 1e-3: `lanczos_iteration`
+does no re-orthogonalization, the Lanczos vectors lose orthogonality completely once outlying Ritz values have
+converged (within < 10 iterations for such spectra), and `expm_krylov(..., hermitian=True)` is then not unitary.
+This is a genuine violation of "for any number of local Krylov iterations ... up to rounding" (minimal call:
+a = np.r_[np.linspace(-1, 1, 28), 1000., -1000.]; v = np.ones(30)/np.sqrt(30);
+np.linalg.norm(ptn.expm_krylov(lambda x: a*x, v, -1j, 8, hermitian=True)) == 1.000145), kept apart from the main
+kinds so that it can be listed as a known finding without masking anything else."""
 import os
 for _v in ('OMP_NUM_THREADS', 'OPENBLAS_NUM_THREADS', 'MKL_NUM_THREADS'):
     os.environ.setdefault(_v, '1')
@@ -20,6 +32,7 @@ DTS = (0.05j, -0.3j, 1.0j)
 NITS = (1, 2, 5, 25)
 FAMILIES = [('ising', 2), ('heisenberg_xxz', 2), ('heisenberg_s1', 3), ('bose_hubbard', 2), ('bose_hubbard', 3),
             ('fermi_hubbard', 4), ('rand0', 2), ('rand0', 3), ('randq', 2), ('randq', 3)]
+STIFF_FAMILIES = [('rand0s', 3), ('randqs', 3)]
 BSTYLES = ('one', 'random', 'max', 'complete')
 
 
@@ -28,7 +41,7 @@ def cases(tier, seed):
     quick = tier == 'quick'
     Lmax = 4 if quick else 6
     Dmax = 4 if quick else 8
-    reps = 3 if quick else 6
+    reps = 5 if quick else 8
     k = 0
     for integ in ('single', 'two'):
         for (model, d) in FAMILIES:
@@ -46,17 +59,30 @@ def cases(tier, seed):
                         k += 1
                         yield dict(kind=integ, model=model, d=d, L=L, bstyle=bstyle, Dmax=Dmax, calls=calls,
                                    seed=int(rng.integers(1 << 31)))
+    # stiff family (|dt|*||H|| of a few hundred): separate kinds and signature qualifier ':stiff', see module docstring
+    for integ in ('single', 'two'):
+        for (model, d) in STIFF_FAMILIES:
+            for L in ((3, 4) if quick else (3, 4, 5)):
+                for bstyle in ('max', 'complete'):
+                    for r in range(4 if quick else 8):
+                        calls = [dict(dt=[0.0, float(DTS[(k + j) % 3].imag)], numiter=int((25, 5)[(k // 3 + j) % 2]),
+                                      steps=int(rng.integers(1, 6))) for j in range(2)]
+                        k += 1
+                        yield dict(kind=integ + '_stiff', model=model, d=d, L=L, bstyle=bstyle, Dmax=Dmax, calls=calls,
+                                   seed=int(rng.integers(1 << 31)))
 
 
 def run_case(c):
     warnings.simplefilter('ignore')
     rng = np.random.default_rng(c['seed'])
     key = json.dumps(c, sort_keys=True)
-    L, integ = c['L'], c['kind']
+    L, integ = c['L'], c['kind'].split('_')[0]
+    stiff = c['kind'].endswith('_stiff')
     fname = 'integrate_local_singlesite' if integ == 'single' else 'integrate_local_twosite'
     fails = []
 
     def fail(clause, detail, qual=''):
+        qual = qual or ('stiff' if stiff else '')
         fails.append(dict(clause=clause, detail=detail, signature=f'{fname}:{clause}' + (f':{qual}' if qual else '')))
 
     try:
